@@ -517,7 +517,7 @@ def rule_l_iter(ctx):
     comp_iter = [a for a, v in ctx.roles.composites.items() if v["family"] == "iter"]
     n = 0
     for b in ctx.facts.bodies.values():
-        polls = [c for c in ctx.calls(b) if c.method == "next" and c.self_adt in comp_iter and not b.is_cleanup(c.loc.bb)]
+        polls = [c for c in ctx.calls(b) if c.method in ("next", "find", "find_map") and c.self_adt in comp_iter and not b.is_cleanup(c.loc.bb)]
         if not polls:
             continue
         isites = []
